@@ -29,7 +29,9 @@ string object_name (object ob) {
 
 string error_handler (mapping m, int caught) {
   string e = m["error"];
-  if (handler_catches) catch (hc_nop ());
+  if (handler_catches == 1 || handler_catches == 2) catch (hc_nop ());
+  // mode 2: a handler that completes a catch () and then fails itself (a log file it cannot write ...); mode 3: fails at once
+  if (handler_catches >= 2) error ("error_handler failed\n");
   if (!stringp (e)) e = "?";
   VL ("#h " + (caught ? "caught " : "err ") + e);
   return "";
